@@ -169,6 +169,12 @@ type frame struct {
 type cutPoint struct {
 	frames []*frame
 	blk    *ssa.BasicBlock
+	ctx    []ctxEntry // loop-invariant merge values that distinguish this instance of the header (cutContext)
+}
+
+type ctxEntry struct {
+	phi *ssa.Phi
+	t   *Term
 }
 
 type gcBuilder struct {
@@ -261,6 +267,9 @@ func BuildGCNFOpts(p *Prog, e *Effects, fn *ssa.Function, opts BuildOpts) *GCNF 
 	for k := 0; k < len(b.cuts); k++ { // cuts inside inlined callees are discovered while walking
 		cut := b.cuts[k]
 		st := &pstate{b: b, start: cut.blk, frames: append([]*frame(nil), cut.frames...), env: map[ssa.Value]*Term{}, onPath: map[string]bool{}}
+		for _, ce := range cut.ctx {
+			st.env[ce.phi] = ce.t
+		}
 		if k != 0 {
 			n := 0
 			for _, in := range cut.blk.Instrs {
@@ -281,7 +290,83 @@ func BuildGCNFOpts(p *Prog, e *Effects, fn *ssa.Function, opts BuildOpts) *GCNF 
 			break
 		}
 	}
+	b.dropUnreachable()
 	return b.out
+}
+
+// dropUnreachable removes the guarded commands of cut instances no path leads to (the context-free instance of a header
+// that is only ever entered with a context).
+func (b *gcBuilder) dropUnreachable() {
+	if b.out.Undecided != "" {
+		return
+	}
+	reach := map[int]bool{0: true}
+	for changed := true; changed; {
+		changed = false
+		for _, g := range b.out.GCs {
+			if reach[g.From] && g.Exit.Op == "goto" {
+				if k, err := strconv.Atoi(g.Exit.Leaf); err == nil && !reach[k] {
+					reach[k] = true
+					changed = true
+				}
+			}
+		}
+	}
+	kept := b.out.GCs[:0]
+	for _, g := range b.out.GCs {
+		if reach[g.From] {
+			kept = append(kept, g)
+		}
+	}
+	b.out.GCs = kept
+}
+
+// toPre re-stamps a value computed before a loop as "read before the loop".
+func toPre(t *Term) *Term {
+	return rewriteTerm(t, func(x *Term) *Term {
+		switch x.Op {
+		case "load", "lookup", "next", "res", "@":
+			if x.Leaf != "" && x.Leaf != "pre" {
+				args := make([]*Term, len(x.Args))
+				for i, a := range x.Args {
+					args[i] = toPre(a)
+				}
+				return &Term{Op: x.Op, Leaf: "pre", Args: args}
+			}
+		}
+		return nil
+	})
+}
+
+// cutContext: the merge values (φs of non-header blocks) that dominate loop header blk and were decided on this path —
+// `smaller, larger := a, b; if … { smaller, larger = b, a }; for … smaller …`. A header reached with such values becomes a
+// cut instance of its own per distinct assignment (the loop is analysed once per way of entering it, as if it had been
+// written out in each branch). Values that depend on an earlier loop stay opaque (no context).
+func (st *pstate) cutContext(blk *ssa.BasicBlock) ([]ctxEntry, string) {
+	var out []ctxEntry
+	var sb strings.Builder
+	for _, d := range blk.Parent().Blocks {
+		if d == blk || !d.Dominates(blk) || isLoopHeader(d) {
+			continue
+		}
+		for _, in := range d.Instrs {
+			ph, ok := in.(*ssa.Phi)
+			if !ok {
+				break
+			}
+			t, ok := st.env[ph]
+			if !ok {
+				continue
+			}
+			if t.any(func(x *Term) bool { return x.Op == "φ" || x.Op == "φout" }) {
+				return nil, ""
+			}
+			t = toPre(t)
+			out = append(out, ctxEntry{ph, t})
+			fmt.Fprintf(&sb, "|%s=%s", ph.Name(), t.String())
+		}
+	}
+	return out, sb.String()
 }
 
 func (b *gcBuilder) emit(st *pstate, from int, exit *Term) {
@@ -419,12 +504,18 @@ func (b *gcBuilder) walk(st *pstate, blk *ssa.BasicBlock, pred *ssa.BasicBlock, 
 		key := blockKey(fr, blk)
 		isCut := false
 		k := 0
-		if len(st.frames) > 1 && isLoopHeader(blk) {
-			// a loop inside an inlined callee: a cut point of its own, discovered here
-			if _, ok := b.cutIdx[key]; !ok {
+		if isLoopHeader(blk) {
+			ctx, cs := st.cutContext(blk)
+			key += cs
+			// a loop inside an inlined callee, or a header entered with decided merge values: a cut point of its own,
+			// discovered here
+			if _, ok := b.cutIdx[key]; !ok && (len(st.frames) > 1 || len(ctx) > 0) {
 				b.cutIdx[key] = len(b.cuts)
-				b.cuts = append(b.cuts, cutPoint{frames: append([]*frame(nil), st.frames...), blk: blk})
+				b.cuts = append(b.cuts, cutPoint{frames: append([]*frame(nil), st.frames...), blk: blk, ctx: ctx})
 				b.out.Cuts = append(b.out.Cuts, blk)
+			}
+			for _, ce := range ctx {
+				st.env[ce.phi] = ce.t
 			}
 		}
 		if kk, ok := b.cutIdx[key]; ok {
@@ -1022,6 +1113,17 @@ func mkBin(op token.Token, a, b *Term) *Term {
 			case token.NEQ:
 				return boolConst(x != y)
 			}
+		}
+	}
+	if op == token.EQL || op == token.NEQ {
+		// nil against nil / against a fresh allocation: decided (an inlined helper returning nil, a just-built node)
+		isNil := func(t *Term) bool { return t.Op == "#" && t.Leaf == "nil" }
+		nonNil := func(t *Term) bool { return t.Op == "new" || t.Op == "makeslice" || t.Op == "makemap" || t.Op == "makechan" }
+		switch {
+		case isNil(a) && isNil(b):
+			return boolConst(op == token.EQL)
+		case (isNil(a) && nonNil(b)) || (nonNil(a) && isNil(b)):
+			return boolConst(op == token.NEQ)
 		}
 	}
 	switch op {
@@ -1663,4 +1765,78 @@ func compareGCSets(a, b []string) (onlyA, onlyB []string) {
 	sort.Strings(onlyA)
 	sort.Strings(onlyB)
 	return
+}
+
+// tailRecForm rewrites a function whose whole body is one loop over its parameters — entry path without guards or effects
+// that enters loop header k with φ_j := p_i — into the equivalent tail-recursive normal form: φ_j is read as p_i and
+// every back edge `goto:k b…` becomes the effect `do:<self> p0 … b_j …` followed by a plain return. A rule written
+// against the recursive shape (rebalance(node.Parent, key)) then also reads the loop shape; other functions are returned
+// unchanged. Only for functions without results.
+func tailRecForm(p *Prog, g *GCNF) *GCNF {
+	if g.Undecided != "" || g.Fn.Signature.Results().Len() != 0 {
+		return g
+	}
+	var entry *GC
+	for _, x := range g.GCs {
+		if x.From == 0 {
+			if entry != nil {
+				return g
+			}
+			entry = x
+		}
+	}
+	if entry == nil || len(entry.Guards) != 0 || len(entry.Effects) != 0 || entry.Exit.Op != "goto" || len(entry.Exit.Args) == 0 {
+		return g
+	}
+	k := entry.Exit.Leaf
+	phiToParam := map[string]*Term{}
+	paramOfPhi := make([]int, len(entry.Exit.Args))
+	used := map[int]bool{}
+	for j, a := range entry.Exit.Args {
+		var i int
+		if a.Op != "p" {
+			return g
+		}
+		if _, err := fmt.Sscanf(a.Leaf, "%d", &i); err != nil || used[i] {
+			return g
+		}
+		used[i] = true
+		paramOfPhi[j] = i
+		phiToParam[k+"."+strconv.Itoa(j)] = a
+	}
+	out := &GCNF{Fn: g.Fn, NumPaths: g.NumPaths, Cuts: g.Cuts}
+	self := p.FuncKey(g.Fn)
+	for _, x := range g.GCs {
+		if x == entry {
+			continue
+		}
+		if strconv.Itoa(x.From) != k {
+			return g // another loop: not the simple shape
+		}
+		y := rewriteGC(x, func(t *Term) *Term {
+			if t.Op == "φ" {
+				if prm, ok := phiToParam[t.Leaf]; ok {
+					return prm
+				}
+			}
+			return nil
+		})
+		y.From = 0
+		if y.Exit.Op == "goto" {
+			if y.Exit.Leaf != k || len(y.Exit.Args) != len(paramOfPhi) {
+				return g
+			}
+			args := make([]*Term, len(g.Fn.Params))
+			for i := range args {
+				args[i] = leaf("p", strconv.Itoa(i))
+			}
+			for j, b := range y.Exit.Args {
+				args[paramOfPhi[j]] = b
+			}
+			y.Effects = append(append([]*Term(nil), y.Effects...), nodeL("do", self, args...))
+			y.Exit = node("return")
+		}
+		out.GCs = append(out.GCs, y)
+	}
+	return out
 }
